@@ -24,11 +24,17 @@ import (
 // other wrong answer on these operators is still a VIOLATION.
 
 func churnHeap() {
+	// collect, then refill the small size classes (the probe strings are 12 bytes) so that
+	// reclaimed slots are overwritten; repeated because sweeping is lazy
 	var junk [][]byte
-	for i := 0; i < 4000; i++ {
-		junk = append(junk, []byte(fmt.Sprintf("%040d", i)))
-		if i%100 == 0 {
-			runtime.GC()
+	for round := 0; round < 4; round++ {
+		runtime.GC()
+		for i := 0; i < 60000; i++ {
+			b := make([]byte, 12)
+			for k := range b {
+				b[k] = 'X'
+			}
+			junk = append(junk, b)
 		}
 	}
 	runtime.KeepAlive(junk)
